@@ -62,6 +62,53 @@ fn main() {
             let out = canon::expand_macros(ts, "a2ml_specification", &|g| a2mlspec::a2ml_specification(g));
             println!("{}", out.0);
         }
+        "a2ml-text" => {
+            // for every a2ml_specification!{..} invocation in the file: the macro input (as nested token JSON), and the
+            // string constants / item names of the expansion produced by the in-tree generator
+            let src = std::fs::read_to_string(&args[2]).expect("read invocation");
+            let ts = proc_macro2::TokenStream::from_str(&src).expect("tokenize invocation");
+            let toks: Vec<proc_macro2::TokenTree> = ts.into_iter().collect();
+            let mut out = String::from("{\"specs\":[");
+            let mut first = true;
+            let mut i = 0;
+            while i + 2 < toks.len() {
+                if let (proc_macro2::TokenTree::Ident(id), proc_macro2::TokenTree::Punct(p), proc_macro2::TokenTree::Group(g)) = (&toks[i], &toks[i + 1], &toks[i + 2]) {
+                    if id == "a2ml_specification" && p.as_char() == '!' {
+                        let expansion = a2mlspec::a2ml_specification(g.stream());
+                        let mut consts = Vec::new();
+                        let mut items = Vec::new();
+                        match syn::parse2::<syn::File>(expansion.clone()) {
+                            Ok(f) => {
+                                for it in &f.items {
+                                    match it {
+                                        syn::Item::Const(c) => {
+                                            if let syn::Expr::Lit(l) = &*c.expr {
+                                                if let syn::Lit::Str(sv) = &l.lit {
+                                                    consts.push(format!("{}:{}", ast::esc(&c.ident.to_string()), ast::esc(&sv.value())));
+                                                }
+                                            }
+                                        }
+                                        other => items.push(ast::item(other)),
+                                    }
+                                }
+                            }
+                            Err(e) => {
+                                eprintln!("specscan: expansion of a2ml_specification! does not parse: {e}");
+                                std::process::exit(3);
+                            }
+                        }
+                        if !first { out.push(','); }
+                        first = false;
+                        out.push_str(&format!("{{\"input\":{},\"consts\":{{{}}},\"items\":[{}]}}", ast::token_tree(g.stream()), consts.join(","), items.join(",")));
+                        i += 3;
+                        continue;
+                    }
+                }
+                i += 1;
+            }
+            out.push_str("]}");
+            println!("{}", out);
+        }
         other => {
             eprintln!("unknown subcommand {other}");
             std::process::exit(2);
